@@ -215,7 +215,10 @@ func (e *Env) nameOf() string {
 func (e *Env) Point(n string) { e.hook(n, kPoint, nil) }
 
 func (e *Env) hook(n string, k kind, m interface{}) {
-	if k == kPoint && !strings.HasPrefix(n, "h.") && !e.classOn(n) {
+	// points whose name ends in "!" are always on: they sit right after a sleep and before a
+	// read of shared state, so that two goroutines woken at the same virtual instant each run only
+	// local code before parking (otherwise the Go runtime's order of same-instant timers decides)
+	if k == kPoint && !strings.HasPrefix(n, "h.") && !strings.HasSuffix(n, "!") && !e.classOn(n) {
 		return
 	}
 	if k == kAcquire && !e.classOn(n) && tryFree(n, m) {
@@ -464,6 +467,7 @@ func (e *Env) idle(limit time.Duration) {
 			d = e.Cfg.Tick
 		}
 	}
+	deadline := e.Now() + d
 	t := time.NewTimer(d)
 	select {
 	case <-e.wake:
@@ -475,6 +479,11 @@ func (e *Env) idle(limit time.Duration) {
 		case <-t.C:
 		default:
 		}
+	}
+	// whether the tick has passed is decided on the virtual clock, not on the state of the timer: a
+	// thread that woke at the very instant the tick was due must not make the outcome depend on
+	// which of two same-instant timers the runtime happened to run first
+	if e.Now() >= deadline {
 		e.event(nil)
 	}
 	select {
@@ -615,7 +624,7 @@ func (e *Env) run(body func(*Env)) {
 				rec.Costs[k] = m[k].cost
 			}
 			if e.Cfg.KeepMenus {
-				rec.Menu = strings.Join(labels(m), " | ")
+				rec.Menu = fmt.Sprintf("[t=%v ev=%d] ", e.Now(), e.events) + strings.Join(labels(m), " | ")
 			}
 			e.Points = append(e.Points, rec)
 			e.Choices = append(e.Choices, c)
